@@ -161,7 +161,7 @@ fn gen_stream(rng: &mut Rng, tag: &str, max_chunks: usize, heavy: bool) -> Strea
                 ((base as i64 + off).max(t as i64)) as u64
             }
         };
-        let (bytes, class): (Vec<u8>, &'static str) = match rng.below(if heavy { 16 } else { 13 }) {
+        let (bytes, class): (Vec<u8>, &'static str) = match rng.below(if heavy { 17 } else { 13 }) {
             0..=3 => {
                 line_no += 1;
                 open_line = false;
@@ -220,11 +220,28 @@ fn gen_stream(rng: &mut Rng, tag: &str, max_chunks: usize, heavy: bool) -> Strea
                 }
                 (v, "many_tiny_lines")
             }
-            _ => {
+            15 => {
                 open_line = true;
                 let mut v = format!("{}:big-partial ", tag).into_bytes();
                 v.extend(std::iter::repeat(b'P').take(9000));
                 (v, "partial_over_bufreader")
+            }
+            _ => {
+                // poorly compressible volume well beyond one zstd block (128 KiB): lines of pseudo-random text
+                open_line = false;
+                let mut v = Vec::with_capacity(300 * 1024);
+                let total = 140 * 1024 + rng.below(200 * 1024);
+                while v.len() < total {
+                    line_no += 1;
+                    v.extend_from_slice(format!("{}:{} ", tag, line_no).as_bytes());
+                    let long = rng.chance(1, 8);
+                    let ll = 40 + rng.below(if long { 150_000 } else { 200 });
+                    for _ in 0..ll {
+                        v.push(b"ABCDEFGHIJKLMNOPQRSTUVWXYZabcdefghijklmnopqrstuvwxyz0123456789+/"[(rng.next() & 63) as usize]);
+                    }
+                    v.push(b'\n');
+                }
+                (v, "incompressible_volume")
             }
         };
         chunks.push(Chunk { at_ms: t, bytes, class });
@@ -448,6 +465,9 @@ fn features(sc: &Script) -> (BTreeMap<String, u64>, u64, bool) {
                 }
                 if c.bytes.len() > 8192 {
                     *p.entry("line_over_bufreader".into()).or_insert(0) += 1;
+                }
+                if c.class == "incompressible_volume" {
+                    *p.entry("incompressible_volume_over_128k".into()).or_insert(0) += 1;
                 }
                 open = !c.bytes.ends_with(b"\n");
                 last_t = c.at_ms;
